@@ -235,7 +235,8 @@ func (w *World) trackAfter(line M) {
 			}
 		}
 	case "confirm":
-		if !gb(line, "none") && !gb(line, "keep") {
+		// (a confirmation that will be repeated later - keep - has released the pod all the same: the shim no longer holds it)
+		if !gb(line, "none") {
 			if a, ok := w.sAsks[gs(line, "key")]; ok && a.App == gs(line, "app") {
 				delete(w.sAsks, gs(line, "key"))
 			}
